@@ -117,27 +117,35 @@ fn range_step_backwards(
     step: usize,
     end: usize,
 ) -> impl Iterator<Item = usize> {
+    // a start before the first item selects nothing
+    let before_first = matches!(start, Some(start) if start < 0 && end as i64 + start < 0);
     let start = match start {
         None => end.saturating_sub(1),
         Some(start) if start >= end as i64 => end.saturating_sub(1),
         Some(start) if start >= 0 => start as usize,
         Some(start) => (end as i64 + start).max(0) as usize,
     };
+    // `None`: the walk runs down to and including the first item (no stop was
+    // given, or it lies before the first item); `Some(idx)`: it ends above idx.
     let stop = match stop {
-        None => 0,
-        Some(stop) if stop < 0 => (end as i64 + stop).max(0) as usize,
-        Some(stop) => stop as usize,
+        None => None,
+        Some(stop) if stop < 0 => usize::try_from(end as i64 + stop).ok(),
+        Some(stop) => Some(stop as usize),
     };
-    let length = if end == 0 {
+    let length = if end == 0 || before_first {
         // nothing to index into
         0
-    } else if stop == 0 {
-        (start + step) / step
     } else {
-        // `start` below `stop` selects nothing
-        (start.saturating_sub(stop) + step - 1) / step
+        match stop {
+            None => (start + step) / step,
+            // `start` at or below `stop` selects nothing
+            Some(stop) => (start.saturating_sub(stop) + step - 1) / step,
+        }
     };
-    (stop..=start).rev().step_by(step).take(length)
+    (stop.map_or(0, |x| x.saturating_add(1)).min(start)..=start)
+        .rev()
+        .step_by(step)
+        .take(length)
 }
 
 pub fn slice(value: Value, start: Value, stop: Value, step: Value) -> Result<Value, Error> {
